@@ -317,17 +317,15 @@ def known_entry(prop: str, call: str, method: str, failure: str, **attrs):
     return None
 
 
-def translator_ok(ctx) -> bool:
-    return not any("translator failed closed on Gen_spectrum" in n for n in ctx.notes)
-
-
-def load_models(ctx):
-    """Python-evaluable copies of the generated lines; None (and a note) if the translator fails closed."""
+def load_models(ctx, fresh: bool = True):
+    """Python-evaluable copies of the lines of the model the Coq side uses: the freshly generated one, or -- when the
+    check fell back to the golden Coq text -- the golden one (the translator applied to the snapshot of the source the
+    golden text was generated from, coq_golden/Gen_spectrum.golden_source.py).  (None, None) if unavailable."""
     import gen_spectrum
     try:
-        return gen_spectrum.python_models()
-    except Exception as e:  # noqa: BLE001  (fail closed: the caller falls back to the property oracle only)
-        ctx.notes.append(f"python models unavailable: {type(e).__name__}: {e}")
+        return gen_spectrum.python_models() if fresh else gen_spectrum.golden_python_models()
+    except Exception as e:  # noqa: BLE001
+        ctx.notes.append(f"python models unavailable ({'fresh' if fresh else 'golden'}): {type(e).__name__}: {e}")
         return None, None
 
 
@@ -335,6 +333,12 @@ def sample_goal_shards(ctx, name: str, goals, unfold, nshards: int = 4):
     from concurrent.futures import ThreadPoolExecutor
     req = ("From Coq Require Import Reals List.\nImport ListNotations.\n"
            "From PD Require Import Model.Num Model.Spectrum Gen.Gen_spectrum.")
+    finite = [g for g in goals if math.isfinite(g[2]) and math.isfinite(g[3])]
+    for g in goals:
+        if g not in finite:  # cannot be written as a Coq literal: the implementation value itself is the disagreement
+            ctx.obligations += 1
+            ctx.broken.append(f"translator sample goal {g[0]}: implementation value {g[2]!r} is not finite")
+    goals = finite
     shards = [goals[i::nshards] for i in range(nshards)]
     shards = [s for s in shards if s]
     with ThreadPoolExecutor(len(shards) or 1) as ex:
